@@ -94,7 +94,7 @@ let () =
         end in
       let run_instrumented op arg =
         match op.[0] with
-        | 'i' ->
+        | 'i' | 'I' ->
           let e = Scanf.sscanf arg "%d.%d" (fun a b -> (a, b)) in
           let (((_, t'), s'), _) = BTreeAllocModel.ainsert_op rank dflt ln inn hn !ast !atr e in
           atr := t'; ast := s'
@@ -135,7 +135,7 @@ let () =
           let arg = String.sub op 1 (String.length op - 1) in
           (if tracing then run_instrumented op arg);
           (match op.[0] with
-          | 'i' ->
+          | 'i' | 'I' ->
             let (k, tg) = Scanf.sscanf arg "%d.%d" (fun a b -> (a, b)) in
             let e = (k, tg) in
             let (((st, t'), o'), lg) = BTreeModel.insert rank dflt ln inn hn !oracle !t e in
